@@ -298,7 +298,8 @@ class Extract(Function):
         self.field = field
 
     def get_special_params_sql(self, **kwargs):
-        return "FROM {field}".format(field=self.field.get_sql(**kwargs))
+        # a sub-query to extract from is one parenthesised unit, like any other function argument
+        return "FROM {field}".format(field=self.field.get_sql(**{**kwargs, "subquery": True}))
 
     @builder
     def replace_table(self, current_table, new_table):
